@@ -120,7 +120,8 @@ FASTOR_INLINE void _transpose<float,3,3>(const float * FASTOR_RESTRICT a, float 
     // 5 OPS
     __m128 row0 = _mm_loadu_ps(a);
     __m128 row1 = _mm_loadu_ps(a+3);
-    __m128 row2 = _mm_loadu_ps(a+6);
+    // the last row has three elements only: a[9] is not part of the matrix
+    __m128 row2 = _mm_movelh_ps(_mm_loadl_pi(_mm_setzero_ps(),reinterpret_cast<const __m64*>(a+6)),_mm_load_ss(a+8));
 
     __m128 T0   = _mm_unpacklo_ps(row0,row1);
     __m128 T1   = _mm_unpackhi_ps(row0,row1);
@@ -131,7 +132,9 @@ FASTOR_INLINE void _transpose<float,3,3>(const float * FASTOR_RESTRICT a, float 
 
     _mm_storeu_ps(out,row0);
     _mm_storeu_ps(out+3,row1);
-    _mm_storeu_ps(out+6,row2); // out of range for out[9]
+    // the last row is stored as 2+1 elements, out[9] is not part of the matrix
+    _mm_storel_pi(reinterpret_cast<__m64*>(out+6),row2);
+    _mm_store_ss(out+8,_mm_movehl_ps(row2,row2));
 #else
     // 3 OPS
     // gcc/clang emit vpermsps tht operate on (%rsp)
